@@ -284,10 +284,24 @@ func genC07(rng *hx.Rng, tier string, w *hx.Writer) error {
 	// (5) selector evaluation: deterministic under repetition and concurrency; query content = result || submitter
 	var docMu sync.Mutex
 	docs := map[string][]byte{}
+	cuts := map[string]int{}
 	srv := httptest.NewServer(http.HandlerFunc(func(rw http.ResponseWriter, rq *http.Request) {
 		docMu.Lock()
 		d := docs[rq.URL.Path]
+		cut, isCut := cuts[rq.URL.Path]
 		docMu.Unlock()
+		if isCut {
+			// the transfer breaks after `cut` bytes of a body announced with its full length
+			if hj, ok := rw.(http.Hijacker); ok {
+				if conn, buf, err := hj.Hijack(); err == nil {
+					fmt.Fprintf(buf, "HTTP/1.1 200 OK\r\nContent-Type: text/plain\r\nContent-Length: %d\r\n\r\n", len(d))
+					buf.Write(d[:cut])
+					buf.Flush()
+					conn.Close()
+					return
+				}
+			}
+		}
 		rw.Write(d)
 	}))
 	defer srv.Close()
@@ -360,6 +374,109 @@ func genC07(rng *hx.Rng, tier string, w *hx.Writer) error {
 			oracle2 = hx.Fail("query-content-wrong", "query content is not parsed-document || submitter")
 		}
 		w.Put(hx.Case{Entry: "stages", Op: 5, Args: hx.L("b"+res, hx.B(sub)), Impl: impl, Oracle: oracle2, Tags: []string{"query-content", "nt"}})
+		// the same request while the transfer of the document breaks part-way (one member's connection
+		// drops): that member must sign the same string as everybody else or nothing - never a prefix
+		if len(doc) > 1 && it%2 == 0 {
+			cpath := fmt.Sprintf("/cut%d", it)
+			cut := []int{0, 1, len(doc) / 2, len(doc) - 1}[rng.Intn(4)]
+			docMu.Lock()
+			docs[cpath] = doc
+			cuts[cpath] = cut
+			docMu.Unlock()
+			csel := sel
+			if it%4 == 0 {
+				csel = ""
+			}
+			whole := parseOnce(doc, csel)
+			implC := hx.Catch(func() string {
+				ctx, cancel := context.WithTimeout(context.Background(), 5*time.Second)
+				defer cancel()
+				sc := make(chan []byte, 1)
+				sc <- sub
+				out, errc := dosnode.VerifGenQueryResult(ctx, sc, srv.URL+cpath, csel, c07Log)
+				go func() {
+					for range errc {
+					}
+				}()
+				v, ok := readAll(out, 5*time.Second)
+				if !ok {
+					return hx.E
+				}
+				return hx.B(v)
+			})
+			oracleC := "ok"
+			if implC != hx.E && (whole == hx.E || whole == hx.P || implC != whole+hx.B(sub)[1:]) {
+				oracleC = hx.Fail("query-content-wrong", fmt.Sprintf("the transfer of the document broke after %d of %d bytes and the member still produced a string to sign that is not parsed-document || submitter", cut, len(doc)))
+			}
+			w.Put(hx.Case{Entry: "-", Op: 0, Args: hx.L(hx.Zi(cut), hx.Zi(len(doc)), hx.B([]byte(csel))), Impl: implC, Oracle: oracleC, Tags: []string{"query-transfer-cut", "nt"}})
+		}
+	}
+	// (5b) results HELD while further documents are evaluated (a member keeps the extracted bytes as
+	// the content it signs and sends while the next requests are already being parsed), sequentially
+	// and from several goroutines: what was extracted stays what it was
+	for it := 0; it < 6*scale; it++ {
+		type heldRes struct {
+			got  []byte
+			copy []byte
+		}
+		mk := func(big bool) ([]byte, string) {
+			if rng.Chance(60) {
+				d := 1 + rng.Intn(2)
+				if big {
+					d = 3
+				}
+				return []byte("<root>" + genXML(rng, d) + "</root>"), xmlSelectors[rng.Intn(len(xmlSelectors))]
+			}
+			return []byte(`{"a":` + genJSON(rng, 3) + `,"b":` + genJSON(rng, 2) + `,"items":[` + genJSON(rng, 2) + "," + genJSON(rng, 2) + `]}`), jsonSelectors[rng.Intn(len(jsonSelectors))]
+		}
+		var held []heldRes
+		changed := 0
+		res := hx.Catch(func() string {
+			for k := 0; k < 12; k++ {
+				doc, sel := mk(k == 0)
+				b, err := dosnode.VerifDataParse(doc, sel)
+				if err != nil {
+					continue
+				}
+				held = append(held, heldRes{b, append([]byte{}, b...)})
+			}
+			var wg sync.WaitGroup
+			var mu sync.Mutex
+			for g := 0; g < 8; g++ {
+				doc, sel := mk(false)
+				wg.Add(1)
+				go func() {
+					defer wg.Done()
+					for r := 0; r < 6; r++ {
+						b, err := dosnode.VerifDataParse(append([]byte{}, doc...), sel)
+						if err != nil {
+							return
+						}
+						c := append([]byte{}, b...)
+						time.Sleep(50 * time.Microsecond)
+						if !bytes.Equal(b, c) {
+							mu.Lock()
+							changed++
+							mu.Unlock()
+						}
+					}
+				}()
+			}
+			wg.Wait()
+			for _, h := range held {
+				if !bytes.Equal(h.got, h.copy) {
+					changed++
+				}
+			}
+			return hx.Zi(changed)
+		})
+		oracle := "ok"
+		if res == hx.P {
+			oracle = hx.Fail("extract-panic", "the extractor panicked: "+hx.LastPanic)
+		} else if res != hx.Zi(0) {
+			oracle = hx.Fail("extract-nondeterministic", fmt.Sprintf("%d extracted results changed while they were held and further documents were evaluated", changed))
+		}
+		w.Put(hx.Case{Entry: "-", Op: 0, Args: hx.L(hx.Zi(it)), Impl: res, Oracle: oracle, Tags: []string{"extract-held", "nt"}})
 	}
 	// (6) the whole request handler on every non-submitting member, all sharing ONE event object
 	nEv := 25 * scale
